@@ -880,6 +880,10 @@ def c10_splines(chk):
                               {'key': key, 'history_position': q // 3})
             if f0[key] != f1.get(key):
                 chk.violation(f'read-only queries change later query results ({key} depends on query order)', c.describe(), {'key': key})
-        compare(chk, c, a, mod[str(q)], ['coeffs', 'cum', 'energy', 'egt', 'egi', 'egb', 'prop_inner', 'prop_times', 'prop_b', 'ev'],
-                tol=TOL[c.order] * 10)
+        # evaluations against the exact model only when the code's rounded knot times are the exact ones (section 4/8:
+        # otherwise rounded knots are different inputs; the bit-for-bit reuse comparison above covers every case)
+        if not exact_times(c):
+            chk.count('ev-vs-model skipped (knot times not exactly representable)')
+        compare(chk, c, a, mod[str(q)], ['coeffs', 'cum', 'energy', 'egt', 'egi', 'egb', 'prop_inner', 'prop_times', 'prop_b']
+                + (['ev'] if exact_times(c) else []), tol=TOL[c.order] * 10)
     chk.sample(meta[0].describe())
